@@ -158,6 +158,10 @@ theorem C08_typedef_one (F : TyInst) (root : List MDecl) (tn : Typename) (nn : S
     subst h
     have hn' : nn ≠ "" := by intro h; subst h; simp at hn
     exact ⟨_, rfl, by simp [hn']⟩
+  | ifunc f =>
+    simp [pure, Except.pure] at h
+    subst h
+    exact ⟨_, rfl, by simp⟩
   | instantiated => simp [throw, throwThe, MonadExceptOf.throw] at h
 
 /-- non-vacuity: a 2 × 3 product, in the order the property demands -/
